@@ -220,14 +220,16 @@ def _evaluate_markers(markers: MarkerList, environment: dict[str, str]) -> bool:
         elif isinstance(marker, tuple):
             lhs, op, rhs = marker
 
+            # PEP 508 allows a variable or a literal on either side.
+            environment_key = ""
+            lhs_value, rhs_value = lhs.value, rhs.value
             if isinstance(lhs, Variable):
                 environment_key = lhs.value
-                lhs_value = environment[environment_key]
-                rhs_value = rhs.value
-            else:
-                lhs_value = lhs.value
-                environment_key = rhs.value
-                rhs_value = environment[environment_key]
+                lhs_value = environment[lhs.value]
+            if isinstance(rhs, Variable):
+                if environment_key != "extra":
+                    environment_key = rhs.value
+                rhs_value = environment[rhs.value]
 
             lhs_value, rhs_value = _normalize(lhs_value, rhs_value, key=environment_key)
             groups[-1].append(_eval_op(lhs_value, op, rhs_value))
